@@ -337,10 +337,7 @@ func c18RunGHist(out *zzverif.Out, vocab *Vocab, h *c18GHist, fix bool) {
 		}
 	}
 	if ncalls > 0 {
-		fixFlag := 0
-		if fix {
-			fixFlag = 1
-		}
+		fixFlag := c18FixMask()
 		head := fmt.Sprintf("ghist %d %s %d %s %s %d %d", fixFlag, c18Bits(h.temp), h.k, c18Bits(h.p), c18Bits(h.mp), h.seed, len(impl))
 		// only the calls that were made (a history stops at the first error)
 		_ = ncalls
